@@ -328,3 +328,5 @@ def run(chk, S: Session):
 
     rb = chk.rule("R-C03-B", "clauses of this statement decided by rules of C05 (what the adaptive routines report when a step ends exactly at, or beyond, a checkpoint)", floor=10)
     borrow(chk, S, rb, "C05", lambda r, c: r == "R-C05-2")
+    rb2 = chk.rule("R-C03-B2", "the returned backward factorisation is consumed with consistent indices by the log-likelihood pass (rule of C12: conditional k is paired with the datum and the observation model of its own time point)", floor=2)
+    borrow(chk, S, rb2, "C12", lambda r, c: r == "R-C12-1")
